@@ -29,6 +29,9 @@ pub enum Case {
     Reconf(Vec<ROp>),
     /// merged breadth-first layer over session operations (bound of the state constraint)
     SessionsReach(Vec<SOp>, i64),
+    /// one session: 'x = <literal>' ; a setter call on the calculator ; 'x' and 'x + x' on the same
+    /// session: the binding still holds the same value
+    SessionReconf { bind: String, setter: ROp, doubles: bool },
 }
 
 #[derive(Clone, Debug, Serialize, Deserialize)]
@@ -177,6 +180,30 @@ impl Prop for C04 {
                 },
             ));
         }
+        f.push(Family::new(
+            "session-reconfiguration",
+            Mode::Full,
+            "one re-used session: 'x = <literal>' for a number (1.250), a fraction (2,5), money (2,5 usd), a percentage (12,5%), a unit quantity (1,5 km), a duration (90 minutes), a date (3/1/2020); then ONE setter call on the calculator (separators in 4 conventions and both call orders, number format, default zone CET | EST | GMT+14); then 'x' and 'x + x' on the same session: the binding still holds the value it was given (a binding holds a value; configuration affects reading and printing only)",
+            move |ch| {
+                let bind = *ch.pick(&["x = 1.250", "x = 2,5", "x = 2,5 usd", "x = 12,5%", "x = 1,5 km", "x = 90 minutes", "x = 3/1/2020"]);
+                let setters = vec![
+                    ROp::Seps(".".into(), ",".into()),
+                    ROp::Seps(".".into(), "".into()),
+                    ROp::Seps(",".into(), "".into()),
+                    ROp::Seps(",".into(), ".".into()),
+                    ROp::Dec(".".into()),
+                    ROp::Thou(",".into()),
+                    ROp::Num(0, true, true),
+                    ROp::Num(4, false, false),
+                    ROp::Tz("CET".into()),
+                    ROp::Tz("EST".into()),
+                    ROp::Tz("GMT+14".into()),
+                ];
+                let setter = ch.pick(&setters).clone();
+                let doubles = ch.flag();
+                Some(Case::SessionReconf { bind: bind.to_string(), setter, doubles })
+            },
+        ));
         let ds = tier.pick(3, 4);
         f.push(Family::new(
             "session-histories",
@@ -236,6 +263,7 @@ impl Prop for C04 {
             Case::Sessions(ops) => exec_sessions(ctx, ops, None),
             Case::SessionsReach(ops, bound) => exec_sessions(ctx, ops, Some(*bound)),
             Case::Reconf(ops) => exec_reconf(ctx, ops),
+            Case::SessionReconf { bind, setter, doubles } => exec_session_reconf(ctx, bind, setter, *doubles),
         }
     }
 
@@ -489,5 +517,71 @@ fn exec_reconf(ctx: &mut Ctx, ops: &[ROp]) -> Verdict {
         }
     }
     v.observed = trace;
+    v
+}
+
+fn exec_session_reconf(ctx: &mut Ctx, bind: &str, setter: &ROp, doubles: bool) -> Verdict {
+    use crate::obs::Val;
+    let mut v = Verdict { input: format!("{} ;; {:?} ;; {}", bind, setter, if doubles { "x + x" } else { "x" }), class: "history-compared", compared: true, expected: "the binding keeps its value across the setter call".into(), evals: 2, ..Default::default() };
+    let mut calc = ctx.fresh(&Cfg::default());
+    let mut session = Session::new();
+    session.set_language("en".to_string());
+    let first = obs::eval_session(&calc, &mut session, Some(bind));
+    let bound = match first.single() {
+        Some(Slot::Ok { val, .. }) => val.clone(),
+        _ => {
+            v.violation = Some("the binding line does not evaluate".into());
+            v.observed = first.brief();
+            return v;
+        }
+    };
+    match setter {
+        ROp::Seps(d, t) => {
+            calc.set_decimal_seperator(d.clone());
+            calc.set_thousand_separator(t.clone());
+        }
+        ROp::Dec(d) => calc.set_decimal_seperator(d.clone()),
+        ROp::Thou(t) => calc.set_thousand_separator(t.clone()),
+        ROp::Num(d, rm, rd) => calc.set_number_configuration(*d, *rm, *rd),
+        ROp::Tz(z) => {
+            let _ = calc.set_timezone(z.clone());
+        }
+        ROp::Eval(_) => {}
+    }
+    let text = if doubles { "x + x" } else { "x" };
+    let second = obs::eval_session(&calc, &mut session, Some(text));
+    v.observed = format!("{} ;; {}", first.brief(), second.brief());
+    if let Run::Panic(p) = &second {
+        v.violation = Some(format!("panic: {}", p.message));
+        v.site = Some(p.site.clone());
+        return v;
+    }
+    // the calendar date of a date value, whatever zone label it carries
+    let same = |a: &Val, b: &Val| match (a, b) {
+        (Val::Date { y, m, d, .. }, Val::Date { y: y2, m: m2, d: d2, .. }) => y == y2 && m == m2 && d == d2,
+        _ => obs::val_close(a, b, 1e-12),
+    };
+    let want: Option<Val> = if !doubles {
+        Some(bound.clone())
+    } else {
+        match &bound {
+            Val::Number(x, b) => Some(Val::Number(2.0 * x, *b)),
+            Val::Money(x, c) => Some(Val::Money(2.0 * x, c.clone())),
+            Val::Unit(x, g, i) => Some(Val::Unit(2.0 * x, g.clone(), *i)),
+            Val::Duration(s) => Some(Val::Duration(2 * s)),
+            _ => None, // percent + percent, date + date: not prescribed
+        }
+    };
+    match (want, second.single()) {
+        (None, _) => {
+            v.class = "unspecified";
+            v.compared = false;
+        }
+        (Some(w), Some(Slot::Ok { val, .. })) if same(val, &w) => {}
+        (Some(w), _) => {
+            v.expected = format!("{:?}", w);
+            v.violation = Some("after a setter call on the calculator the session's binding no longer denotes the value it was given".into());
+        }
+    }
     v
 }
